@@ -12,3 +12,4 @@ import IOptProps.C04
 import IOptProps.C16
 import IOptProps.C01
 import IOptProps.C08holder
+import IOptProps.C13
